@@ -194,6 +194,35 @@ def word_forms(chk):
             same = (got == want) and (got.units == want.units if hasattr(want, "units") else (not hasattr(got, "units") or got.unitless))
             if not same:
                 chk.diverge({"clause": "keyword-values", "text": text}, {"text": text, "values": {k: str(v) for k, v in vals.items()}, "expected": str(want), "observed": str(got), "after_lookups": warm})
+    # the pretty multiplication dot is multiplication in every entry point (it is also a legal identifier character)
+    for text, want in (("kg·m", "kg * m"), ("N·m", "N * m"), ("newton·meter", "newton * meter"), ("kg·m·s", "kg * m * s"), ("meter·newton", "meter * newton")):
+        for entry, f in (("parse_units", lambda t: u.Quantity(1, u.parse_units(t))), ("Unit", lambda t: u.Quantity(1, u.Unit(t))), ("Quantity", lambda t: u.Quantity(1, t)),
+                         ("parse_expression", lambda t: u.parse_expression(t)), ("from_string", lambda t: u.Quantity(1, u.UnitsContainer({u.get_name(k): v for k, v in pint.util.ParserHelper.from_string(t).items()})))):
+            chk.case(("dot-product", text, entry))
+            try:
+                got, ref = f(text), f(want)
+            except Exception as e:
+                chk.diverge({"clause": "word-form-raises", "exc": type(e).__name__, "text": text, "entry": entry}, {"text": text, "entry": entry})
+                continue
+            if dict(got.unit_items()) != dict(ref.unit_items()):
+                chk.diverge({"clause": "word-form", "text": text, "entry": entry}, {"text": text, "entry": entry, "observed": str(got), "expected": str(ref)})
+    # what parsing returns belongs to the caller: changing it in place does not change what the same text means next time
+    for mk in (lambda: pint.UnitRegistry(), lambda: pint.UnitRegistry(force_ndarray=True)):
+        u3 = mk()
+        chk.case(("parse-result-owned", bool(getattr(u3, "force_ndarray", False))))
+        try:
+            for text, change in (("meter", lambda q: q.__imul__(5)), ("second", lambda q: q.ito("millisecond")), ("kilogram", lambda q: q.__iadd__(q))):
+                try:
+                    change(u3(text))
+                except Exception:
+                    pass                   # (an integer array cannot take a float in place: not what is examined here)
+            facts = [u3("2 meter").to("meter").magnitude, str(u3("3 second").units), u3("3 second").magnitude, u3.parse_expression("4 kilogram").to("kilogram").magnitude]
+            ok = [float(facts[0]) == 2.0, facts[1] == "second", float(facts[2]) == 3.0, float(facts[3]) == 4.0]
+        except Exception as e:
+            chk.diverge({"clause": "parse-result-shared-raises", "exc": type(e).__name__}, {})
+            continue
+        if not all(ok):
+            chk.diverge({"clause": "parse-result-shared"}, {"observed": [str(x) for x in facts]})
     # integers stay integers; decimals take the registry's type
     for text, T, val in (("3 m", int, 3), ("3.0 m", float, 3.0), ("6 m / 2", float, 3.0), ("2 ** 3 m", int, 8), ("7 // 2 m", int, 3), ("1_000 m", int, 1000),
                          ("9_007_199_254_740_993 m", int, 9007199254740993), ("7_0 // 8 m", int, 8), ("1_0.5 m", float, 10.5), ("1e0_1 m", float, 10.0)):
